@@ -1,13 +1,14 @@
 --------------------------- MODULE PbfFormatGen ---------------------------
-(* C01 case generation: writes the cases of one family of PbfFormatSpace as ndjson.      *)
-(* Constants (set by props/c01.py in a generated cfg): Fam, Full, Seed.                  *)
+(* C01 case generation: writes the cases of the families in Fams (PbfFormatSpace) as ndjson, one file per shape.  *)
+(* Constants (set by props/c01.py in a generated cfg): Fams, Full, Seed.                                           *)
 EXTENDS PbfFormatSpace, IOUtils, Json, SequencesExt
-CONSTANTS Fam, Full, Seed
-ShapeSeq == SetToSeq(FamShapes(Fam, Full, Seed))
-Cases == [i \in 1 .. Len(ShapeSeq) |-> FamBuild(Fam, Full, Seed, ShapeSeq[i])]      \* one file per shape
+CONSTANTS Fams, Full, Seed
+FamSeq == SetToSeq(Fams)
+CasesOf(fam) == LET sh == SetToSeq(FamShapes(fam, Full, Seed)) IN [i \in 1 .. Len(sh) |-> FamBuild(fam, Full, Seed, sh[i])]
+Cases == Concat([k \in 1 .. Len(FamSeq) |-> CasesOf(FamSeq[k])])
 ASSUME \A i \in 1 .. Len(Cases) : ValidFile(Cases[i].file)          \* the space stays inside C01's quantifier
 ASSUME ndJsonSerialize(IOEnv.OUT, Cases)
-ASSUME PrintT(<<"GENERATED", Fam, Len(Cases)>>)
+ASSUME PrintT(<<"GENERATED", Fams, Len(Cases)>>)
 VARIABLE v
 GInit == v = 0
 GNext == UNCHANGED v
